@@ -42,7 +42,11 @@ def record(co, opc, ident, fmt, tab=None):
         r["has"].append("ulines")
         up = []
         for e in co.co_positions():
-            up += [[nn(e[1]), nn(e[2]), nn(e[3]), nn(e[4])]] * e[0]
+            if len(e) == 4:
+                # a native code object (fast path): CPython's own co_positions(), one 4-tuple per code unit
+                up.append([nn(x) for x in e])
+            else:
+                up += [[nn(e[1]), nn(e[2]), nn(e[3]), nn(e[4])]] * e[0]
         r["upos"] = up
         r["has"].append("upos")
     sl, io = [], []
@@ -76,12 +80,8 @@ def main():
             for path in json.load(open(inp)):
                 try:
                     with xd.quiet():
-                        saved = xload.PYTHON_MAGIC_INT
-                        xload.PYTHON_MAGIC_INT = -1
-                        try:
+                        with xd.forced_portable():
                             (version, ts, magic_int, co, pypy, ss, sip) = load_module(path)
-                        finally:
-                            xload.PYTHON_MAGIC_INT = saved
                         opc = get_opcode(version, pypy)
                 except Exception as e:
                     fh.write(json.dumps({"id": path, "loaderror": "%s: %s" % (type(e).__name__, e)}) + "\n")
